@@ -16,9 +16,10 @@
 (*  - DECLARATIVE (part 3, part 5): the property.  Completed / Accepts / OutputAccepts /           *)
 (*    OutputsSatisfy and the statements AcceptOK, ParsedOK, FrozenOK, RawUntouched (C11), OutOK,   *)
 (*    ReportedOK, SuccessOK (C12) that relate the operational result to them.                      *)
-(* TLC checks  operational |= declarative  on every instance of a bounded universe (part 6) and    *)
-(* prints, per port tree, the operational result of every instance; the harness executes every     *)
-(* printed instance against the real classes and compares.                                         *)
+(* TLC checks  operational |= declarative  on every instance of a bounded universe (part 6: Init   *)
+(* chooses a family and one of its port trees, one action evaluates every instance of the tree)    *)
+(* and prints, per tree, the operational result of every instance; the harness executes every      *)
+(* printed instance against the real classes and compares (harness/ports_check.py).                *)
 (***************************************************************************************************)
 EXTENDS Naturals, Sequences, FiniteSets, TLC
 
